@@ -83,3 +83,7 @@ Definition checked_funcname_ref (f_replace_all : bytes -> bytes -> bytes -> byte
   then Some (fold_left (fun n (kv_ : bytes * bytes) => let '(k, v) := kv_ in f_replace_all n k v) providers name)
   else let pos := str_last_index name [x2f] in
        if 0 <=? pos then str_suffix name (pos + 1) else Some name.
+
+(* the two width setters: a value outside the range leaves the setting as it is *)
+Definition set_level_output_width_ref (cur width : Z) : Z := if (0 <=? width) && (width <=? 5) then width else cur.
+Definition set_message_minimal_width_ref (cur w : Z) : Z := if 16 <=? w then w else cur.
